@@ -33,52 +33,48 @@ Theorem C31_cu_sessions : forall cf ops rs cm stp stu,
   stored_from cf ops true stp /\ stored_from cf ops false stu /\ accepted_all cf ops rs.
 Proof. exact sessions_ok. Qed.
 
-(* THE FULL STATEMENT for a tree variant: no accepted direct POSIX change and no session stores / accepts a
-   password outside ok_pw. *)
+(* THE FULL STATEMENT (C31_statement, Proofs.v): no accepted direct POSIX password change and no credential
+   update session stores or accepts a password outside ok_pw.  It is stated per tree variant; the current tree
+   (Model.tree_fixed = true, /repo commit cec32bc) is the variant `true`. *)
 Definition C31_full_statement : Prop := C31_statement tree_fixed.
 
-(* With /verif/fixes/C31.patch applied (POSIX path uses the resolved policy, in grapheme clusters) the full
-   statement holds. *)
+(* HEADLINE: the full statement holds for the current tree: every path — direct POSIX change, session primary,
+   session POSIX, quality-check endpoint, commit — for all configurations, passwords and session lengths. *)
 Theorem C31_full_fixed_tree : C31_statement true.
 Proof. exact statement_fixed. Qed.
+Theorem C31_full : C31_full_statement.
+Proof. exact statement_fixed. Qed.
 
-(* The pinned tree violates it: account policy minimum 30, the 18 character password "eiK7ohvie4Aeph9Eix" is
-   accepted and stored by set_unix_account_password. *)
-Theorem C31_refuted : ~ C31_statement false.
+(* Bridge: on every case where the implementation agrees with the model, the property's executable predicate
+   holds of the IMPLEMENTATION's answers (there is no known class). *)
+Theorem C31_agree_implies_property : forall c, agree c = true -> pcheck c = true.
+Proof. exact agree_implies_property_fixed. Qed.
+
+(* ---- documentation of the defect this check found in the tree before fix commit cec32bc ---- *)
+(* The pre-fix tree violated the statement: account policy minimum 30, the 18 character password
+   "eiK7ohvie4Aeph9Eix" was accepted and stored by set_unix_account_password. *)
+Theorem C31_prefix_refuted : ~ C31_statement false.
 Proof. exact statement_unfixed_refuted. Qed.
-(* Independently of any policy: 9 grapheme clusters (27 bytes) pass the 15 BYTE check of the POSIX path. *)
-Theorem C31_refuted_graphemes :
+(* Independently of any policy: 9 grapheme clusters (27 bytes) passed the 15 BYTE check of the POSIX path. *)
+Theorem C31_prefix_refuted_graphemes :
   ~ (forall cf pw zx, pwd_wf pw = true -> posix_op_gen false cf pw zx = ROk -> ok_pw cf pw).
 Proof. exact statement_unfixed_refuted_graphemes. Qed.
-
-(* Verdict for the tree the model currently follows (Model.tree_fixed). *)
-Theorem C31_verdict : if tree_fixed then C31_full_statement else ~ C31_full_statement.
-Proof.
-  unfold C31_full_statement.
-  exact ((fun b : bool => match b return (if b then C31_statement b else ~ C31_statement b) with
-                          | true => statement_fixed | false => statement_unfixed_refuted end) tree_fixed).
-Qed.
-
-(* PARTIAL (pinned tree): everything except KnownClass = { POSIX account, >= 15 bytes, fewer grapheme clusters
-   than the effective minimum }.  Missing for the full statement: exactly that class. *)
-Theorem C31_pinned_tree_partial :
+(* what did hold before the fix: everything except KnownClass = { POSIX account, >= 15 bytes, fewer grapheme
+   clusters than the effective minimum } *)
+Theorem C31_prefix_partial :
   (forall cf pw zx, pwd_wf pw = true -> posix_op_gen false cf pw zx = ROk -> ~ KnownClass cf pw -> ok_pw cf pw) /\
   (forall cf ops rs cm stp stu, run_sess cf ops = (rs, cm, stp, stu) ->
      stored_from cf ops true stp /\ stored_from cf ops false stu /\ accepted_all cf ops rs).
 Proof. exact statement_unfixed_partial. Qed.
-(* what the pinned POSIX path does enforce: 15..128 BYTES (hence at most 128 clusters), zxcvbn 4, badlist *)
-Theorem C31_pinned_posix_guarantees : forall cf pw zx,
+Theorem C31_prefix_posix_guarantees : forall cf pw zx,
   pwd_wf pw = true -> posix_op_gen false cf pw zx = ROk ->
   c_posix cf = true /\ PW_SFA_MIN <= bytes pw /\ bytes pw <= PW_MAX /\ graphemes pw <= PW_MAX /\
   ~ badlist_hit (c_bad cf) (flat pw) /\ 4 <= zx /\ (spec_min (c_pols cf) <= graphemes pw -> ok_pw cf pw).
 Proof. exact posix_unfixed_partial. Qed.
-
-(* Bridge: on a case where the implementation agrees with the model and that is not in the known class, the
-   property's executable predicate holds of the IMPLEMENTATION's answers (both tree variants). *)
-Theorem C31_agree_implies_property : forall c, agree c = true -> known c = false -> pcheck c = true.
-Proof. intro c. exact (agree_implies_property_gen tree_fixed c). Qed.
-Theorem C31_agree_implies_property_fixed_tree : forall c, agree_gen true c = true -> pcheck c = true.
-Proof. exact agree_implies_property_fixed. Qed.
+(* the pre-fix bridge: agreement with the pre-fix model outside its known class gave the property *)
+Theorem C31_prefix_agree_implies_property : forall c,
+  agree_gen false c = true -> known_gen false c = false -> pcheck c = true.
+Proof. exact (agree_implies_property_gen false). Qed.
 
 (* pcheck says what it should: for a direct POSIX change, acceptance or a changed stored credential imply
    ok_pw; for a session, the stored credentials and accepted requests do. *)
